@@ -2,7 +2,7 @@
 import z3, json, collections, time
 from mirsym.core import *
 from mirsym import models as MM, sym as SY
-from vf import explore as XP, par
+from vf import explore as XP, par, kani as K
 from vf.explore import Summary
 from .common import *
 
@@ -331,4 +331,14 @@ def run(run):
     jobs += [('interp', 'index', AI, dl)] + [('interp', ('slice', hs, ht), AI, dl) for hs in (0, 1) for ht in (0, 1)]
     jobs += [('pidx', n, dl) for n in range(1, (5 if run.tier == 'quick' else 7) + 1)]
     run_jobs(run, jobs, task, 'mirsym: slice kernel + interpret Slice/Index arms + parse_index')
+    quick = run.tier == 'quick'
+    res = K.run_harnesses(run, ['c07_slice_len0', 'c07_slice_len2', 'c07_slice_len3', 'c07_negative_index', 'c07_slice_non_array_is_none'] + ([] if quick else ['c07_slice_len4', 'c07_slice_len6']), timeout=420 if quick else 2400)
+    run.bounds['kani'] = 'Variable::slice on arrays of exactly 0, 2, 3' + ('' if quick else ', 4, 6') + ' elements, all Option<i32> start/stop and all i32 steps != 0; get_index / get_negative_index for all usize on 3 elements; slice of non-arrays; real Vec/Rc code'
+    from .c05 import kani_slice_request
+    for r in res:
+        if r['failed']:
+            req = kani_slice_request(r['harness'], r.get('values'))
+            exp = {'positions': py_slice_positions(req['len'], req['start'], req['stop'], req['step'])} if req.get('step') else {'positions': []}
+            run.cands.append({'key': 'slice-wrong-elements' if not any('overflow' in c['desc'] or 'bounds' in c['desc'] for c in r['failed']) else 'slice-panic', 'what': 'Kani: ' + '; '.join(c['desc'] for c in r['failed'][:3]),
+                              'witness': req, 'request': req, 'expected': exp})
     run.confirm_all(confirm)
